@@ -17,6 +17,10 @@ var (
 )
 
 func setup() (*World, error) {
+	// debugging switch: verify a scratch copy of the repository (the registered checks never set it)
+	if d := os.Getenv("SPOKVC_REPO"); d != "" {
+		repoDir = d
+	}
 	w := newWorld()
 	p, err := loadProgram(repoDir)
 	if err != nil {
@@ -161,8 +165,21 @@ func cmdVerify(args []string) {
 	fmt.Fprintf(os.Stderr, "loaded in %.1fs\n", time.Since(start).Seconds())
 	keys := matchKeys(w, fs.Args())
 	var obls []*Obligation
+	var fkeys []string
 	for _, k := range keys {
-		g := w.verifyKey(k)
+		if !strings.HasPrefix(k, "lemma.") {
+			fkeys = append(fkeys, k)
+		}
+	}
+	gens := w.verifyAll(fkeys)
+	for _, n := range w.aliasNotes {
+		fmt.Println("RE-BOUND", n)
+	}
+	for _, k := range keys {
+		g := gens[k]
+		if g == nil {
+			g = w.verifyKey(k)
+		}
 		for _, o := range g.obls {
 			if *only == "" || strings.Contains(o.Name, *only) {
 				obls = append(obls, o)
